@@ -1,6 +1,7 @@
 (* Extraction of the executable models of C07 (ExtrOcamlBasic only, no Extract Constant). *)
 From Coq Require Import ZArith List Extraction ExtrOcamlBasic.
-From C07 Require TableSpec MultiHash IndexModel Gen_Segments SelectionModel TableOps ProjectModel GroupModel.
+From C07 Require TableSpec MultiHash IndexModel Gen_Segments SelectionModel TableOps ProjectModel GroupModel ProtoRun.
+Extraction Blacklist String.
 Separate Extraction
   TableSpec.step TableSpec.empty_table TableSpec.select TableSpec.find_by_key TableSpec.project
   TableSpec.sorted_projection TableSpec.lower_bound_count TableSpec.upper_bound_count TableSpec.natlist_eqb
@@ -11,4 +12,6 @@ Separate Extraction
   MultiHash.pv_add MultiHash.accept_remove MultiHash.filter_group
   IndexModel.empty_istate IndexModel.add_raw IndexModel.remove_raw IndexModel.update_raw IndexModel.update_col
   IndexModel.filter_raws IndexModel.add_unique_index IndexModel.add_multi_index IndexModel.find_unique
-  IndexModel.find_multi IndexModel.has_col.
+  IndexModel.find_multi IndexModel.has_col
+  ProtoRun.gen_add_raw ProtoRun.gen_remove_raw ProtoRun.gen_update_raw ProtoRun.gen_update_col
+  ProtoRun.gen_fit_unique ProtoRun.gen_fit_multi.
